@@ -274,8 +274,14 @@ def fresh_hint_list(n, relay_ok=True, honest=False):
         return [fresh_enum("hint0_nondict", NONDICT)]
     prio = PRIO_NUM if honest else PRIO_ANY
     for i in range(n):
-        shape = eng().choose(2, "hint%d_shape" % i)
-        if shape == 0:
+        shape = eng().choose(3 if honest else 2, "hint%d_shape" % i)
+        if shape == 2:
+            # "twins": entries naming one and the same target (equal host and port, distinct JSON values), each either a direct or a Tor hint,
+            # priorities symbolic: an entry this side cannot dial (Tor) must not keep a dialable twin from being dialled
+            hints.append(SymHintDict("hint%d" % i, False, fixed=dict(type=fresh_enum("hint%d.type" % i, ["direct-tcp-v1", "tor-tcp-v1"]), port=int("4100"),
+                                                                   hostname="".join(["twin", ".example"]),
+                                                                   priority=fresh_enum("hint%d.priority" % i, prio))))
+        elif shape == 0:
             hints.append(SymHintDict("hint%d" % i, False, fixed=dict(type="direct-tcp-v1", port=4000 + i,
                                                                    hostname=("other%d.example" % i) if (honest or i) else fresh_enum("hint0.hostname", ["other0.example", "a..b"]),
                                                                    priority=fresh_enum("hint%d.priority" % i, prio))))
